@@ -5,6 +5,7 @@ import (
 	"flag"
 	"fmt"
 	"os"
+	"sort"
 	"strconv"
 	"strings"
 
@@ -56,6 +57,41 @@ func main() {
 			}
 		}
 		os.Exit(runCheck(os.Args[2], os.Args[3], opt))
+	case "describe":
+		l, err := load()
+		if err != nil {
+			fmt.Fprintln(os.Stderr, err)
+			os.Exit(2)
+		}
+		var ids []string
+		for id := range specs {
+			ids = append(ids, id)
+		}
+		sort.Strings(ids)
+		fmt.Println("| id | solver | quick instances | thorough instances | harnesses | bounds (decided by the solver within them) | outside the claim |")
+		fmt.Println("|---|---|---|---|---|---|---|")
+		for _, id := range ids {
+			sp := specs[id]
+			q := sp.Quick(l)
+			nt := len(q)
+			if sp.Thorough != nil {
+				nt = len(sp.Thorough(l))
+			}
+			hs := map[string]bool{}
+			for _, in := range q {
+				hs[in.Fn] = true
+			}
+			var hl []string
+			for h := range hs {
+				hl = append(hl, strings.TrimPrefix(h, "Harness"))
+			}
+			sort.Strings(hl)
+			sv := sp.Solver
+			if sv == "" {
+				sv = "z3"
+			}
+			fmt.Printf("| %s | %s | %d | %d | %s | %s | %s |\n", id, sv, len(q), nt, strings.Join(hl, ", "), sp.Bounds, sp.Outside)
+		}
 	case "list":
 		for id := range specs {
 			fmt.Println(id)
